@@ -112,6 +112,49 @@ class C07(vlib.Driver):
                 [["learn", 1, 33], ["mutate", 0, "param", 16], ["mutate", 0, "hp", 17, "lr_last"],
                  ["save", 0], ["load_into", 2, 2]] + pair3(0, 2, 40))
 
+    @staticmethod
+    def premutation_ops(k1, k2, gap1=False, gap2=True):
+        """every mutation kind immediately (or one learn step) before a save: member 0 is mutated with kind k1, saved, restored by
+        Algo.load, and both copies choose greedy actions and learn twice from the same batches; then the same with kind k2 and
+        load_checkpoint into member 1.  What a mutation changes outside the weights (activation / architecture entries of the init
+        dicts, hyper-parameters, re-created optimizers) must come back from the file, and must still be in force when resuming."""
+        def mut(i, k, s):
+            return ["mutate", i, "hp", s, "lr"] if k == "hp" else ["mutate", i, k, s]
+        ops = [["learn", 0, 1], ["learn", 1, 2], mut(0, k1, 21)] + ([["learn", 0, 3]] if gap1 else [])
+        ops += [["save", 0], ["load", 0], ["act", 0, 5], ["act", 2, 5, 0], ["learn", 0, 6], ["learn", 2, 6, 0], ["learn", 0, 7], ["learn", 2, 7, 0]]
+        ops += [mut(0, k2, 22)] + ([["learn", 0, 8]] if gap2 else [])
+        ops += [["save", 0], ["load_into", 1, 1], ["act", 0, 9], ["act", 1, 9, 0], ["learn", 0, 10], ["learn", 1, 10, 0], ["learn", 0, 11], ["learn", 1, 11, 0]]
+        return ops
+
+    @staticmethod
+    def premutation_matrix(tier):
+        """(algo, family, share, k1, k2, gap1, gap2): quick = every mutation kind x every observation family at least once, and the
+        activation mutation x {dict, image} for every algorithm that receives activation mutations; thorough = the full product"""
+        act_algos = ["DQN", "RainbowDQN", "CQN", "NeuralUCB", "NeuralTS"]
+        others = ["arch", "param", "hp", "none"]
+        out = []
+        if tier == "quick":
+            j = 0
+            for fam in ("dict", "image"):
+                for algo in act_algos:
+                    out.append((algo, fam, False, "act", others[j % 4], j % 2 == 1, j % 2 == 0))
+                    j += 1
+            out += [("DDPG", "vector", True, "none", "arch", False, True), ("TD3", "vector", False, "param", "hp", True, False),
+                    ("PPO", "vector", True, "act", "none", False, False), ("NeuralTS", "vector", False, "act", "param", False, True),
+                    ("MADDPG", "discrete", False, "arch", "param", False, True), ("MATD3", "discrete", False, "hp", "act", True, False),
+                    ("IPPO", "discrete", False, "none", "arch", False, False), ("CQN", "discrete", False, "act", "hp", True, False)]
+        else:
+            kinds = ["act"] + others
+            j = 0
+            for algo in evo.ALGOS:
+                for fam in evo.FAMILIES:
+                    for a in range(0, len(kinds), 2):
+                        k1 = kinds[(a + j) % 5]
+                        k2 = kinds[(a + 1 + j) % 5]
+                        out.append((algo, fam, algo in evo.SHARE_CAPABLE and j % 2 == 0, k1, k2, j % 2 == 1, j % 3 == 0))
+                        j += 1
+        return out
+
     def generate(self, tier, rng):
         cases = []
         algos = evo.ALGOS
@@ -175,6 +218,8 @@ class C07(vlib.Driver):
         add("DQN", "vector", False, "partial", 0, 2, wrapper=True, ops=self.boundary_ops())
         for algo in algos:
             add(algo, "vector", algo == "PPO", "partial", 0, 3, ops=self.fresh_optimizer_ops())
+        for n_, (algo, fam, share, k1, k2, g1, g2) in enumerate(self.premutation_matrix(tier)):
+            add(algo, fam, share, ["partial", "none", "full"][n_ % 3], 0, 4 + n_ % 3, ops=self.premutation_ops(k1, k2, g1, g2))
         if only == "boundary":
             return cases
         if tier == "quick":
